@@ -29,6 +29,12 @@ if args and args[0] == "--worktree":
     env["PYTHONPATH"] = os.path.join(wt, "src")
     env.pop("PYTHONDONTWRITEBYTECODE", None)
     cwd = wt
+if args and args[0] == "--dir":
+    # run in an existing checkout (e.g. a worktree holding candidate fix commits); it needs src/basilisp/_lang.abi3.so
+    cwd = args[1]
+    args = args[2:]
+    env["PYTHONPATH"] = os.path.join(cwd, "src")
+    env.pop("PYTHONDONTWRITEBYTECODE", None)
 p = subprocess.run(["/venv/bin/python", "-m", "pytest", "-ra", "-q", "-p", "no:cacheprovider", "--timeout=900",
                     "--continue-on-collection-errors", "--junitxml=" + junit] + args, cwd=cwd, env=env,
                    stdout=subprocess.PIPE, stderr=subprocess.STDOUT, text=True)
